@@ -57,6 +57,8 @@ ALPHA_B = [
     ["unsub", M(1)],
     ["unsub", Z(M(0), L(2))],
     ["unsub", L(1)],
+    ["unsubreapp", "0", L(2)],
+    ["unsubreapp", "1", Z(L(0), L(1))],
     ["appendtask", "0", "7"],
     ["appendtask", "1", "8"],
     ["run"],
@@ -131,6 +133,9 @@ def random_case(rng, model):
             evs.append(["append", str(j), rand_term(rng, 2, False, j == 0)])
         elif r < 0.30:
             evs.append(["appendtask", str(rng.randint(0, 1)), "0"])
+        elif r < 0.33:
+            # (no composite as payload: no cycles)
+            evs.append(["unsubreapp", str(rng.randint(0, 1)), rand_term(rng, 1, False, False)])
         elif r < 0.44:
             evs.append(["unsub", rand_term(rng, 1, True, True)])
         elif r < 0.64:
@@ -279,6 +284,19 @@ def oracle(case, lines):
                     vac_tasks.add(tag)
         elif op == "unsub":
             do_unsub(e[1])
+        elif op == "unsubreapp":
+            # the composite is unsubscribed; the entry appended first re-appends <term> during the teardown:
+            # a late addition, to be torn down like any other (property: "composites tear down late additions")
+            do_unsub(M(int(e[1])))
+            leaves, cells, tasks = closure(e[2], members)
+            for i in leaves:
+                must_dead.setdefault(i, LATE)
+            for tag in tasks:
+                if tag not in ran:
+                    dead_tasks.setdefault(tag, LATE_TASK)
+            for c in cells:
+                gone.setdefault(c, "late")
+                members[c] = []
         elif op == "guard":
             guards.append(e[1])
         elif op == "dropguard":
@@ -374,11 +392,11 @@ def shrink_candidates(case):
             c.events = evs
         cands.append(c)
     for i, e in enumerate(case.events):
-        if e[0] in ("append", "unsub", "closed", "guard"):
-            pos = 2 if e[0] == "append" else 1
+        if e[0] in ("append", "unsub", "closed", "guard", "unsubreapp"):
+            pos = 2 if e[0] in ("append", "unsubreapp") else 1
             for s in subterms(e[pos]):
                 # keep the structure acyclic: composite 0 never goes into a composite
-                if e[0] == "append" and any(a == ("m", 0) or (a == ("m", 1) and e[1] == "1") for a in atoms(s)):
+                if e[0] in ("append", "unsubreapp") and any(a == ("m", 0) or (a == ("m", 1) and e[1] == "1") for a in atoms(s)):
                     continue
                 c = case.copy()
                 c.events[i][pos] = s
